@@ -71,6 +71,13 @@ func Parse(text string) []Rule {
 
 // Rules = defaults + user rules.
 func Rules(userText string) []Rule {
+	// go-slug reads the rule file line by line with a 64 KiB limit per line; a longer line makes the
+	// file unreadable as a whole, and the documented fallback for an unreadable file is the default rules.
+	for _, line := range strings.Split(userText, "\n") {
+		if len(line) >= 64*1024 {
+			return Defaults()
+		}
+	}
 	return append(Defaults(), Parse(userText)...)
 }
 
